@@ -12,6 +12,8 @@ git checkout -q -- .
 if ! git apply "$D/patch.diff"; then echo "RESULT patch-does-not-apply"; exit 9; fi
 echo "== build with patch"; make -j8 > $L/build1.log 2>&1; echo "build rc=$?"
 echo "== existing tests with patch"
+# this tree does not always relink test programs after a library changed: force it
+find src/tests lib/tests test-suite -maxdepth 1 -type f -perm -u+x \( -name "test*" -o -name "mem_*" -o -name "splay" -o -name "syntheticoperators" -o -name "VirtualDeleteOperator" \) ! -name "*.sh" ! -name "*.cc" -delete 2>/dev/null
 for d in src lib test-suite; do (cd $d && make -k -j8 check 'TESTS=$(check_PROGRAMS)' > $L/check-$d.log 2>&1); done
 PASS=$(cat $L/check-*.log | grep -cE "^PASS:"); FAIL=$(cat $L/check-*.log | grep -cE "^(FAIL|ERROR):")
 echo "tests with patch: PASS=$PASS FAIL/ERROR=$FAIL"; cat $L/check-*.log | grep -E "^(FAIL|ERROR):" | head
